@@ -138,6 +138,20 @@ P_Conj(src, base, ts, incl) ==
 
 ParseFails(src) == AliasUndefined(src, P_Dedup(P_Find(src)))
 
+\* the diagnostics of parse(): the names each warning lists (growth beyond the listed properties;
+\* DecGen checks that nothing is dropped without one of them, DecWarnings.tla judges recorded warnings)
+W_Redefined(src) ==
+    LET ts == P_Find(src) IN {ts[i].m : i \in {i \in DOMAIN ts : \E j \in DOMAIN ts : j # i /\ ts[j].m = ts[i].m}}
+TablesBeforeCopy(src) == P_Values(src, P_Alias(src, P_Dedup(P_Find(src))))
+W_CopyMiss(src) ==
+    {n \in RangeOf(CopyKeys(src)) : ~HasTable(TablesBeforeCopy(src), LastDef(src, "CopyDecay", n).src)}
+TablesBeforeConj(src) == P_Copy(src, TablesBeforeCopy(src))
+CDNames(src) == {s.m : s \in RangeOf(OfKind(src, "CDecay"))}
+W_Both(src, incl) == IF ~incl THEN {} ELSE {x \in CDNames(src) : HasTable(TablesBeforeConj(src), x)}
+W_ConjMiss(src, base, incl) ==
+    IF ~incl THEN {}
+    ELSE {x \in CDNames(src) \ W_Both(src, incl) : ~HasTable(TablesBeforeConj(src), ConjOf(src, base, x))}
+
 Parsed(src, base, incl) ==
     P_Conj(src, base, P_Copy(src, P_Values(src, P_Alias(src, P_Dedup(P_Find(src))))), incl)
 
